@@ -481,6 +481,21 @@ func (m *schM) expr(e ast.Expr, pre *[]string) string {
 					t := fmt.Sprintf("v%d", x.tmp)
 					*pre = append(*pre, "let "+t+" : ℤ := s."+fld)
 					return t
+				case goT == "go.uber.org/atomic.Int64" && (sel.Sel.Name == "Add" || sel.Sel.Name == "Sub") && len(v.Args) == 1:
+					// x.Add(d) adds d and yields the new value
+					a := m.expr(v.Args[0], pre)
+					op := map[string]string{"Add": "+", "Sub": "-"}[sel.Sel.Name]
+					*pre = append(*pre, "let s : DoAtSt := { s with "+fld+" := s."+fld+" "+op+" "+a+" }")
+					x.tmp++
+					t := fmt.Sprintf("v%d", x.tmp)
+					*pre = append(*pre, "let "+t+" : ℤ := s."+fld)
+					return t
+				case goT == "go.uber.org/atomic.Int64" && sel.Sel.Name == "Dec" && len(v.Args) == 0:
+					*pre = append(*pre, "let s : DoAtSt := { s with "+fld+" := s."+fld+" - 1 }")
+					x.tmp++
+					t := fmt.Sprintf("v%d", x.tmp)
+					*pre = append(*pre, "let "+t+" : ℤ := s."+fld)
+					return t
 				case goT == "go.uber.org/atomic.Bool" && sel.Sel.Name == "Swap" && len(v.Args) == 1:
 					a := m.expr(v.Args[0], pre)
 					x.tmp++
@@ -778,9 +793,131 @@ func (x *schTr) doAt() string {
 	return b.String()
 }
 
+// NewComposite: `switch len(scheds) { case 0: return NewOnce(0); case 1: return scheds[0] }` -> table (k, source text of
+// what is returned for k nested schedules). The step profile's model (Proofs/C01Chain.compInit) rests on these two rows.
+func (x *schTr) compositeSmall() string {
+	fd := findFunc(x.pkg, "NewComposite")
+	if fd == nil {
+		x.failf("function NewComposite not found")
+		return ""
+	}
+	if len(fd.Type.Params.List) != 1 || len(fd.Type.Params.List[0].Names) != 1 {
+		x.fail(fd, "NewComposite: expected one (variadic) parameter")
+		return ""
+	}
+	if _, ok := fd.Type.Params.List[0].Type.(*ast.Ellipsis); !ok {
+		x.fail(fd, "NewComposite: expected a variadic parameter")
+		return ""
+	}
+	pn := fd.Type.Params.List[0].Names[0].Name
+	var rows []string
+	found := false
+	for _, st := range fd.Body.List {
+		sw, ok := st.(*ast.SwitchStmt)
+		if !ok {
+			if !found {
+				// anything before the switch could change what the switch sees
+				x.fail(st, "NewComposite: statement before `switch len(%s)`", pn)
+			}
+			continue
+		}
+		call, ok := sw.Tag.(*ast.CallExpr)
+		if !ok || sw.Init != nil || len(call.Args) != 1 || nodeString(x.pkg, call.Fun) != "len" || nodeString(x.pkg, call.Args[0]) != pn {
+			x.fail(sw, "NewComposite: expected `switch len(%s)`", pn)
+			continue
+		}
+		if found {
+			x.fail(sw, "NewComposite: second switch")
+		}
+		found = true
+		for _, cs := range sw.Body.List {
+			cc := cs.(*ast.CaseClause)
+			if cc.List == nil {
+				x.fail(cc, "NewComposite: default case in `switch len(%s)`", pn)
+				continue
+			}
+			if len(cc.Body) != 1 {
+				x.fail(cc, "NewComposite: case body is not a single return")
+				continue
+			}
+			ret, ok := cc.Body[0].(*ast.ReturnStmt)
+			if !ok || len(ret.Results) != 1 {
+				x.fail(cc, "NewComposite: case body is not a single return")
+				continue
+			}
+			for _, k := range cc.List {
+				tv, ok := x.pkg.TypesInfo.Types[k]
+				if !ok || tv.Value == nil {
+					x.fail(k, "NewComposite: case label is not a constant")
+					continue
+				}
+				rows = append(rows, fmt.Sprintf("(%s, %q)", tv.Value.ExactString(), nodeString(x.pkg, ret.Results[0])))
+			}
+		}
+	}
+	if !found {
+		x.failf("NewComposite: no `switch len(%s)`", pn)
+	}
+	return "/-- regenerated from `core/schedule/composite.go` func `NewComposite`: what `switch len(" + pn + ")` returns for the small numbers of\nnested schedules (source text); every other number builds a `compositeSchedule` -/\n" +
+		"def compositeSmall : List (ℕ × String) :=\n  [" + strings.Join(rows, ", ") + "]\n\n"
+}
+
+// floatReading re-translates the given functions with t.round set: `<f>_fl (fl : ℝ → ℝ) …`, calls among them pass `fl` on.
+func (x *schTr) floatReading(funcs []string) string {
+	t := x.t
+	saved := map[string]string{}
+	for k, v := range t.known {
+		saved[k] = v
+	}
+	// helpers translated on demand for the exact reading are translated again for this one
+	for k, v := range t.known {
+		if strings.HasPrefix(v, "aux_") {
+			delete(t.known, k)
+		}
+	}
+	for _, f := range funcs {
+		t.known[f] = f + "_fl fl"
+	}
+	t.round = true
+	var b strings.Builder
+	b.WriteString("-- ---------------------------------------------------------------- float64 reading: every float operation rounded by `fl`\n\nnoncomputable section\n\n")
+	for _, f := range funcs {
+		fd := findFunc(x.pkg, f)
+		if fd == nil {
+			x.failf("function %s not found", f)
+			continue
+		}
+		name := f + "_fl"
+		text := t.funcDecl(fd, name)
+		text = strings.Replace(text, "def "+name+" ", "def "+name+" (fl : ℝ → ℝ) ", 1)
+		text = strings.Replace(text, "/-- regenerated from", "/-- float64 reading (the result of every float operation goes through `fl`), regenerated from", 1)
+		for _, a := range t.aux {
+			b.WriteString(a + "\n")
+		}
+		t.aux = nil
+		b.WriteString(text + "\n")
+	}
+	b.WriteString("end\n\n")
+	t.round = false
+	t.known = saved
+	return b.String()
+}
+
 func scheduleExtra(t *tr) string {
 	x := &schTr{t: t, pkg: t.pkg}
 	var b strings.Builder
+	// the float64 reading of the const and line constructors: the same translation with every float operation rounded
+	// by a parameter `fl : ℝ → ℝ` (C01_const_float is about every fl with a relative error bound)
+	flText := x.floatReading([]string{"constDoAt", "NewConst", "lineDoAt", "NewLine"})
+	// helper functions that the constructors call and that were translated on demand (main.go helperFunc), e.g. a
+	// `seconds(d)` extracted by a refactoring: the bridge lemmas unfold them through this tactic without knowing their names
+	b.WriteString("/-- unfolds the helper functions of core/schedule that were translated on demand: ")
+	if len(t.auxNames) == 0 {
+		b.WriteString("none at present -/\nmacro \"schedule_aux_unfold\" : tactic => `(tactic| skip)\n\n")
+	} else {
+		b.WriteString(strings.Join(t.auxNames, ", ") + " -/\nmacro \"schedule_aux_unfold\" : tactic => `(tactic| try simp only [" + strings.Join(t.auxNames, ", ") + "] at *)\n\n")
+	}
+	b.WriteString(flText)
 	b.WriteString("-- ---------------------------------------------------------------- what config validation accepts\n\n")
 	b.WriteString("noncomputable section\n\n")
 	for _, c := range [][2]string{{"NewConstConf", "ConstConfig"}, {"NewLineConf", "LineConfig"}, {"NewStepConf", "StepConfig"}, {"NewOnceConf", "OnceConfig"}} {
@@ -789,6 +926,7 @@ func scheduleExtra(t *tr) string {
 	}
 	b.WriteString("end\n\n")
 	b.WriteString(x.limiters())
+	b.WriteString(x.compositeSmall())
 	b.WriteString("-- ---------------------------------------------------------------- doAtSchedule: what a leaf schedule does when it is started and drained\n\n")
 	b.WriteString(x.doAt())
 	return b.String()
